@@ -977,7 +977,15 @@ impl<'a> G01<'a> {
                 let op = *self.rng.pick(&["=", "<", ">", "<=", ">="]);
                 let a = self.expr(&Ty::Int, d);
                 let b = self.expr(&Ty::Int, d);
-                call(op, vec![a, b])
+                // a third of the comparisons are chains of three or four operands
+                let mut args = vec![a, b];
+                if self.rng.chance(1, 3) {
+                    args.push(self.expr(&Ty::Int, d.min(1)));
+                    if self.rng.chance(1, 2) {
+                        args.push(int(self.small_int()));
+                    }
+                }
+                call(op, args)
             }
             3 => {
                 let b = self.expr(&Ty::Bool, d);
@@ -1591,13 +1599,40 @@ impl<'a> G01<'a> {
         crate::sx::read_one(&text).expect("reentrant promise text")
     }
 
+    /// (define (fN q) (define (hA . r) (cons q r)) (lambda (p) (hA p 'x))): an internal definition
+    /// with a rest parameter, used through closures of separate activations
+    fn define_variadic_factory(&mut self) -> Sx {
+        let level = (self.globals.len() + self.forward.len() + 1) * 2;
+        let name = self.fresh("f");
+        let h = self.fresh("h");
+        let q = self.fresh("p");
+        let p = self.fresh("p");
+        let inner = match self.rng.below(3) {
+            0 => format!("(define ({h} . r) (+ {q} (length r)))", h = h, q = q),
+            1 => format!("(define ({h} a . r) (+ {q} a (length r)))", h = h, q = q),
+            _ => format!("(define ({h} a) (+ {q} a))", h = h, q = q),
+        };
+        self.globals.push(Var {
+            name: name.clone(),
+            kind: VKind::Proc(Sig {
+                params: vec![Ty::Int],
+                rest: false,
+                ret: Ty::Fn(1),
+            }),
+            assignable: false,
+            level,
+        });
+        let text = format!("(define ({name} {q}) {inner} (lambda ({p}) ({h} {p})))", name = name, q = q, inner = inner, p = p, h = h);
+        crate::sx::read_one(&text).expect("variadic factory text")
+    }
+
     pub fn top_form(&mut self) -> Sx {
         self.cur_level = usize::MAX;
         if self.rng.below(1000) < self.opt.fail_permille {
             return self.failing_form();
         }
         if self.rng.chance(1, 12) {
-            return self.define_factory();
+            return if self.rng.chance(1, 3) { self.define_variadic_factory() } else { self.define_factory() };
         }
         if self.rng.chance(1, 30) {
             return self.reentrant_promise();
